@@ -402,7 +402,6 @@ def _c09_instance_attribute_kept():
 
 
 PROBES = {
-    'C09': [('C09-instance-attribute-kept', _c09_instance_attribute_kept)],
     'C04': [('C04-requote-list-format', _c04_requote_list_format)],
     'C17': [('C17-getstate-while-first-render', _c17_getstate_while_first_render)],
     'C08': [('C08-interpreter-stack-exhaustion-cleanup', _c08_stack_exhaustion)],
